@@ -430,7 +430,12 @@ func (e *Enc) eval(sx *Sx, env *evalEnv) tv {
 	case "rem":
 		e.needB = true
 		x := e.eval(args[0], env)
-		return tv{Val{app("select", e.heapGet(env.heap, "$rem", "B"), x.v.T), "B"}, nil}
+		rt := app("select", e.heapGet(env.heap, "$rem", "B"), x.v.T)
+		if env.sideOK() {
+			// what a reader still holds is a finite byte string (assumption of the reader model): its length fits an int64
+			e.sideFact(env, app("<=", app("blen", rt), "4611686018427387904"))
+		}
+		return tv{Val{rt, "B"}, nil}
 	case "cast":
 		// (cast <go type> e): give an untyped reference its Go type so that fields can be selected
 		t := e.w.lookupType(args[0].Atom)
